@@ -793,7 +793,13 @@ def parameter_writer_rule(prog, res, rule='parameter-write'):
     else:
         SC = ('((this._dimension.size == 1) && (this._dimension[0] == 1))', '((this._dimension[0] == 1) && (this._dimension.size == 1))')
         o = orient(alt, SC)
-        if o is None and not re.match(r'^[()!&|=<> \d]*(?:(?:this\._dimension\.size|this\._dimension\[0\]|\(unsigned long\)|\(int\))[()!&|=<> \d]*)+$', alt[1]):
+        prod_locals = set()
+        Rw = Renderer(f)
+        for n_ in f.all_nodes({'CompoundAssignOperator'}):
+            if n_['op'] == '*=' and 'this._dimension[' in Rw.render(n_['ch'][1]):
+                prod_locals.add(re.escape(Rw.render(n_['ch'][0])))
+        atoms_re = '|'.join(['this\\._dimension\\.size', 'this\\._dimension\\[0\\]', '\\(unsigned long\\)', '\\(int\\)'] + sorted(prod_locals))
+        if o is None and not re.match(r'^[()!&|=<> \d]*(?:(?:%s)[()!&|=<> \d]*)+$' % atoms_re, alt[1]):
             ck.shape('ndims.scalar-test', ck.where(alt), 'the scalar test %s is not a comparison of the dimension list the rule reads' % alt[1])
             o = (alt[2], alt[3])
         elif o is None:
@@ -1496,6 +1502,10 @@ def string_assembly_rule(prog, res, rule, g2):
     elif set(rets) == {'arg3'} and len(rec_assign) == 1 and not incs and len(others) == 1 and others[0]['k'] == 'BinaryOperator' and _advances_by_helper(prog, dm, Rd, others[0]):
         res.ok(rule, 'parameter.char.index', dm.loc(), 'input index is advanced by dimension[0] by the joining helper (it returns first + count) and is threaded through the recursion',
                function=dm.sig, expr='parameter.char.index')
+    elif [c_ for c_ in dm.calls() if c_['callee']['usr'] == dm.usr] and not rec_assign and not dm.params[3]['type'].endswith('&') and \
+            (dm.rec['ret'] == 'void' or not rets):
+        res.viol(rule, 'parameter.char.index', dm.loc(), 'the running input index is passed by value into the recursion and nothing brings the advanced value back (the function returns %s, the recursive '
+                 'call\'s result is not stored): after each inner matrix the caller continues from the old index, so slices repeat' % dm.rec['ret'], function=dm.sig, expr='parameter.char.index')
     elif not incs and not others:
         res.viol(rule, 'parameter.char.index', dm.loc(), 'the running input index of the string re-assembly never advances: every string would repeat the first cells', function=dm.sig, expr='parameter.char.index')
     else:
